@@ -101,6 +101,11 @@ def jobs_for(tier):
                 "S0", b"ab\n", 5, label="c++")
     jobs.append(with_san(dict(groups=[g], api="CXX", options=["c++"], knobs={"VF_BUFSIZES": "0,1,2,3", "VF_READ_ONE": 1}, tag="cxx"), ledger=False))
     jobs.append(with_san(dict(groups=[g], api="CXX", options=["c++", "reject"], knobs={"VF_BUFSIZES": "0,8,32,40000", "VF_READ_ONE": 2}, tag="cxx-reject"), ledger=False))
+    # a C++ scanner whose only use of the REJECT machinery is variable trailing context: every member its constructor leaves alone
+    # starts with the sanitizer's fill pattern (round-7 seed C13-r7m3)
+    gv = H.Group([("S1", True)], [H.Rule(R.plus(a), scs=["S1"], trail=R.cat(R.plus(b), nl)), H.Rule(a, scs=["S1"]), H.Rule(b, scs=["S1"]), H.Rule(nl, scs=["S1"])],
+                 "S1", b"ab\n", 5, label="c++ vartrail")
+    jobs.append(with_san(dict(groups=[gv], api="CXX", options=["c++"], knobs={"VF_BUFSIZES": "0,8", "VF_READ_ONE": 2}, tag="cxx-vartrail"), ledger=False))
     return jobs
 
 
